@@ -87,6 +87,47 @@ type c19Slices struct {
 	Rev   []string   `xsel:"ancestor-or-self::*"`
 }
 
+// fields of named (defined) types: the value is converted to the field type
+type c19ID string
+type c19Count int
+type c19Flag bool
+type c19Ratio float64
+type c19Small uint8
+
+type c19Named struct {
+	A  c19ID       `xsel:"@id"`
+	N  c19Count    `xsel:"count(*)"`
+	F  c19Flag     `xsel:"boolean(*)"`
+	R  c19Ratio    `xsel:"count(*) div 4"`
+	U  c19Small    `xsel:"count(@*)"`
+	PA *c19ID      `xsel:"name()"`
+	S  []c19ID     `xsel:"*"`
+	PS []*c19Count `xsel:"*[number(.) = number(.)][. < 1000][. > -1000]"`
+}
+
+// embedded (anonymous) struct fields: a tagged one is a field like any other, an untagged one is left alone
+type c19Emb struct {
+	c19Leaf `xsel:"*[1]"`
+	ID      string `xsel:"@id" json:"id,omitempty"`
+}
+type c19EmbUntagged struct {
+	c19Leaf
+	ID string `json:"x" xsel:"name()"`
+}
+type c19EmbPtr struct {
+	*c19Leaf `xsel:"."`
+	Kids     []c19Emb `xsel:"*"`
+}
+type c19Deep struct {
+	Level1 struct {
+		Level2 struct {
+			V string   `xsel:"$v"`
+			A []string `xsel:"p:*|*"`
+			N float64  `xsel:"$n * 2"`
+		} `xsel:"."`
+	} `xsel:"."`
+}
+
 type c19NS struct {
 	A  string   `xsel:"p:a"`
 	As []string `xsel:"p:*"`
@@ -129,7 +170,7 @@ type c19BadTag struct {
 	S string `xsel:"*["`
 }
 
-var c19Good = []reflect.Type{reflect.TypeOf(c19Leaf{}), reflect.TypeOf(c19Mid{}), reflect.TypeOf(c19Scalars{}), reflect.TypeOf(c19Ptrs{}), reflect.TypeOf(c19Slices{}), reflect.TypeOf(c19NS{})}
+var c19Good = []reflect.Type{reflect.TypeOf(c19Leaf{}), reflect.TypeOf(c19Mid{}), reflect.TypeOf(c19Scalars{}), reflect.TypeOf(c19Ptrs{}), reflect.TypeOf(c19Slices{}), reflect.TypeOf(c19NS{}), reflect.TypeOf(c19Named{}), reflect.TypeOf(c19Emb{}), reflect.TypeOf(c19EmbUntagged{}), reflect.TypeOf(c19EmbPtr{}), reflect.TypeOf(c19Deep{})}
 var c19Bad = []reflect.Type{reflect.TypeOf(c19WrongShape1{}), reflect.TypeOf(c19WrongShape2{}), reflect.TypeOf(c19WrongShape3{}), reflect.TypeOf(c19Unexported{}),
 	reflect.TypeOf(c19Unsupported1{}), reflect.TypeOf(c19Unsupported2{}), reflect.TypeOf(c19Unsupported3{}), reflect.TypeOf(c19Unsupported4{}), reflect.TypeOf(c19Unsupported5{}), reflect.TypeOf(c19Unsupported6{}), reflect.TypeOf(c19BadTag{})}
 
